@@ -149,15 +149,16 @@ func (e *Engine) havocLoop(st *State, fr *Frame, h *loopHdr, spec *LoopSpec) {
 		}
 	}
 	// heap
-	var desigs []string
-	if len(spec.Modifies) > 0 {
-		desigs = spec.Modifies
-	} else {
-		desigs = e.defaultLoopModifies(fr, h)
-	}
 	env := e.frameEnv(st, fr)
-	if len(desigs) == 1 && desigs[0] == "*" && len(spec.Modifies) == 0 {
-		// default frame: everything the program can write; ghost state only if the loop can reach an operation on it
+	if len(spec.Modifies) > 0 {
+		e.havocDesignators(st, env, spec.Modifies, "loop")
+		st.bumpWatermark()
+		return
+	}
+	// default frame: a syntactic over-approximation of what the loop writes
+	all, roots := e.loopWrites(st, fr, h)
+	if all {
+		// everything the program can write; ghost state only if the loop can reach an operation on it
 		ghost := false
 		for b := range h.blocks {
 			for _, in := range b.Instrs {
@@ -174,8 +175,79 @@ func (e *Engine) havocLoop(st *State, fr *Frame, h *loopHdr, spec *LoopSpec) {
 		e.havocAllG(st, ghost)
 		return
 	}
-	e.havocDesignators(st, env, desigs, "loop")
+	e.havocRoots(st, roots)
 	st.bumpWatermark()
+}
+
+// storeRoot follows an address back to the allocation it is derived from (nil if unknown).
+func storeRoot(v ssa.Value) ssa.Value {
+	for i := 0; i < 20; i++ {
+		switch x := v.(type) {
+		case *ssa.FieldAddr:
+			v = x.X
+		case *ssa.IndexAddr:
+			v = x.X
+		case *ssa.Slice:
+			v = x.X
+		case *ssa.Alloc, *ssa.MakeSlice:
+			return v
+		case *ssa.Phi:
+			return nil
+		default:
+			return nil
+		}
+	}
+	return nil
+}
+
+// loopWrites: which memory can the loop body change? Stores into objects allocated inside the body are invisible
+// at the header; stores into objects allocated before the loop by this activation change those objects only;
+// anything else (stores through unknown pointers, map updates, calls with effects) changes everything.
+func (e *Engine) loopWrites(st *State, fr *Frame, h *loopHdr) (all bool, roots []string) {
+	seen := map[string]bool{}
+	for b := range h.blocks {
+		for _, in := range b.Instrs {
+			switch x := in.(type) {
+			case *ssa.Store:
+				r := storeRoot(x.Addr)
+				if r == nil {
+					return true, nil
+				}
+				if ri, ok := r.(ssa.Instruction); ok && h.blocks[ri.Block()] {
+					continue // allocated inside the loop body
+				}
+				v, ok := fr.regs[r]
+				if !ok {
+					return true, nil
+				}
+				t := v.T
+				if v.K == KSlice {
+					t = v.Base
+				}
+				rt := "(root " + t + ")"
+				if !seen[rt] {
+					seen[rt] = true
+					roots = append(roots, rt)
+				}
+			case *ssa.MapUpdate:
+				return true, nil
+			case *ssa.Call:
+				if b, ok := x.Call.Value.(*ssa.Builtin); ok && !x.Call.IsInvoke() {
+					switch b.Name() {
+					case "len", "cap", "min", "max", "append":
+						continue
+					}
+					return true, nil
+				}
+				if !e.callIsPure(&x.Call) {
+					return true, nil
+				}
+			case *ssa.Defer, *ssa.Go, *ssa.Send:
+				return true, nil
+			}
+		}
+	}
+	return false, roots
 }
 
 func (st *State) escapeRoot(r string) { delete(st.private, r) }
